@@ -40,3 +40,18 @@ __CPROVER_ensures((!VC_SPECIALQ && VC_ONLY_PAGE) ==> (g_pf_n == 0 && page->retir
 /* every other empty page is freed at once, from its own queue, not forced */
 __CPROVER_ensures(!(!VC_SPECIALQ && VC_ONLY_PAGE) ==> (g_pf_n == 1 && g_pf_p == page && g_pf_q == VC_PQ && !g_pf_force && g_fheap->page_retired_min == g_rmin0 && g_fheap->page_retired_max == g_rmax0));
 #endif
+
+#ifdef VC_CBMC
+/* ---- abandoning a page that still holds live blocks (thread exit, C09): unlinked from exactly its queue, detached from the heap, and only
+   then handed to the segment layer -- exactly once, with the heap's own segment data; nothing is freed ---- */
+size_t g_spa_n; mi_page_t* g_spa_p; mi_segments_tld_t* g_spa_tld; size_t g_spa_after_remove; uintptr_t g_spa_xheap;
+void _mi_segment_page_abandon(mi_page_t* page, mi_segments_tld_t* tld)
+__CPROVER_requires(1) __CPROVER_assigns(g_spa_n, g_spa_p, g_spa_tld, g_spa_after_remove, g_spa_xheap)
+__CPROVER_ensures(g_spa_n == __CPROVER_old(g_spa_n) + 1 && g_spa_p == page && g_spa_tld == tld && g_spa_after_remove == g_qr_n && g_spa_xheap == page->xheap);
+void _mi_page_abandon(mi_page_t* page, mi_page_queue_t* pq)
+__CPROVER_requires(page == g_fpage && g_qr_n == 0 && g_spa_n == 0 && g_spf_n == 0)
+__CPROVER_assigns(__CPROVER_object_whole(g_fpage), g_qr_n, g_qr_q, g_qr_p, g_spa_n, g_spa_p, g_spa_tld, g_spa_after_remove, g_spa_xheap)
+__CPROVER_ensures(g_qr_n == 1 && g_qr_q == pq && g_qr_p == page)
+__CPROVER_ensures(g_spa_n == 1 && g_spa_p == page && g_spa_tld == &g_ftld->segments && g_spa_after_remove == 1 && g_spa_xheap == 0)
+__CPROVER_ensures(page->xheap == 0 && g_spf_n == 0 && page->used == __CPROVER_old(page->used));
+#endif
